@@ -24,6 +24,7 @@ type Mutation struct {
 	Nth     int    `json:"nth,omitempty"` // 1-based occurrence to replace when Find occurs several times (0 = must be unique)
 	Expect  string `json:"expect"`        // substring of the obligation key that must be reported (violated or undecided)
 	Note    string `json:"note,omitempty"`
+	Patch   string `json:"-"` // path of a unified diff to apply instead of Find/Replace (seeded changes)
 }
 
 type mutResult struct {
@@ -50,6 +51,48 @@ func loadMutations(vdir, prop string) []Mutation {
 		for _, m := range ms {
 			if prop == "" || m.Prop == prop {
 				all = append(all, m)
+			}
+		}
+	}
+	// the independently written breaking changes kept under seeded/ (DESIGN.md 10.3): each must still be
+	// reported by the rule recorded for it
+	metas, _ := filepath.Glob(filepath.Join(vdir, "seeded", "*", "meta.json"))
+	sort.Strings(metas)
+	for _, mf := range metas {
+		b, err := os.ReadFile(mf)
+		if err != nil {
+			continue
+		}
+		var meta struct {
+			ID         string `json:"id"`
+			Property   string `json:"property"`
+			ReportedBy []struct {
+				RuleKey string `json:"rule_key"`
+			} `json:"reported_by"`
+		}
+		if json.Unmarshal(b, &meta) != nil {
+			continue
+		}
+		// every property whose rule reports the change checks it (rule ids are R<number>.<k>)
+		byProp := map[string]string{}
+		for _, r := range meta.ReportedBy {
+			dot := strings.Index(r.RuleKey, ".")
+			if !strings.HasPrefix(r.RuleKey, "R") || dot < 2 {
+				continue
+			}
+			n := r.RuleKey[1:dot]
+			if len(n) == 1 {
+				n = "0" + n
+			}
+			pid := "C" + n
+			if _, seen := byProp[pid]; !seen {
+				byProp[pid] = r.RuleKey
+			}
+		}
+		for pid, key := range byProp {
+			if prop == "" || pid == prop {
+				all = append(all, Mutation{ID: "seeded-" + meta.ID + "@" + pid, Prop: pid, Expect: key,
+					Patch: filepath.Join(filepath.Dir(mf), "patch.diff"), Note: "seeded change (written without knowledge of the checks)"})
 			}
 		}
 	}
@@ -81,6 +124,14 @@ func copyRepo(repo, dst string) error {
 }
 
 func applyMutation(dir string, m Mutation) (bool, string) {
+	if m.Patch != "" {
+		cmd := exec.Command("patch", "-p1", "-s", "-i", m.Patch)
+		cmd.Dir = dir
+		if out, err := cmd.CombinedOutput(); err != nil {
+			return false, "patch does not apply (source changed): " + firstLine(string(out), "")
+		}
+		return true, ""
+	}
 	path := filepath.Join(dir, m.File)
 	b, err := os.ReadFile(path)
 	if err != nil {
